@@ -7,6 +7,7 @@ package worlds
 import (
 	"io"
 	"log/slog"
+	"runtime/debug"
 	"strings"
 	"sync"
 
@@ -73,3 +74,5 @@ func containsAny(s string, subs ...string) bool {
 	}
 	return false
 }
+
+func debugStack() []byte { return debug.Stack() }
